@@ -186,7 +186,10 @@ pub fn check_naks(case: &C08Case, tr: &Trace) -> Result<Vec<&'static str>, Fail>
         for d in &naks {
             let before_eof = te.map(|t| d.t < t).unwrap_or(true);
             if before_eof {
-                let licensed = m.prompt_nak_at.iter().any(|p| *p <= d.t && d.t <= *p + EPS + 40 * tau);
+                // the answer to a Prompt(NAK), or its repetition by the NAK timer that the answer started (the prompted
+                // exchange goes on like any other NAK sequence until it is answered)
+                let tn_ms = cfg.tn as u64 * 1000;
+                let licensed = m.prompt_nak_at.iter().any(|p| *p <= d.t && (d.t <= *p + EPS + 40 * tau || d.t + EPS >= *p + tn_ms));
                 if !licensed {
                     return Err(fail(tr, "deferred-nak-before-eof", format!("deferred procedure: unsolicited NAK at {} ms, EOF delivered at {te:?}", d.t)));
                 }
@@ -253,6 +256,7 @@ pub fn check_naks(case: &C08Case, tr: &Trace) -> Result<Vec<&'static str>, Fail>
             let meta_missing = !m.meta_by(*a);
             // everything requested while the state was this one (a NAK built in the interval reaches the link a little later)
             let mut reqs = vec![];
+            let mut reqs_settled = vec![];
             let mut marker = false;
             let mut n_naks = 0;
             let mut first_nak = None;
@@ -265,6 +269,10 @@ pub fn check_naks(case: &C08Case, tr: &Trace) -> Result<Vec<&'static str>, Fail>
                             marker = true;
                         } else {
                             reqs.push((q.start_offset, q.end_offset));
+                            // a NAK on the link right after the change may have been built just before it
+                            if nd.t > *a + 3 * tau + 3 {
+                                reqs_settled.push((q.start_offset, q.end_offset));
+                            }
                         }
                     }
                 }
@@ -301,7 +309,7 @@ pub fn check_naks(case: &C08Case, tr: &Trace) -> Result<Vec<&'static str>, Fail>
                     format!("between {a} ms and {b} ms the receiver requested {u:?} but {missing:?} was missing (file size {size})"),
                 ));
             }
-            if !subset_of(&u, &missing) {
+            if !subset_of(&union(&reqs_settled), &missing) {
                 return Err(fail(tr, "requests-held-bytes", format!("between {a} ms and {b} ms the receiver requested {u:?}; missing: {missing:?}")));
             }
             if meta_missing && !marker {
@@ -411,6 +419,9 @@ pub struct Script {
     pub last_short: bool,
     pub seed: u64,
     pub crc: bool,
+    /// a pause longer than the NAK timeout before the i-th delivery of the first phase (data arriving after an
+    /// unanswered NAK round has expired)
+    pub pause_before: Option<u32>,
 }
 
 pub fn build(s: &Script) -> C08Case {
@@ -504,7 +515,17 @@ pub fn build(s: &Script) -> C08Case {
             kind: ActionKind::Inject { to: 1, as_from: 0, bytes },
         });
     };
-    for it in &items {
+    for (ii, it) in items.iter().enumerate() {
+        if s.pause_before == Some(ii as u32) {
+            // either clearly after the NAK timer (2 s) expired, or so that this delivery falls into the very millisecond (+-1) in
+            // which a NAK round started by the previous delivery expires
+            t += match s.seed % 5 {
+                0 | 1 => 2000 - STEP,
+                2 => 2000 - STEP + 1,
+                3 => 2000 - STEP - 1,
+                _ => 2000 + 100 + (s.seed % 300),
+            };
+        }
         let bytes = match it {
             It::M => meta.clone(),
             It::D(i) => data[*i as usize].clone(),
@@ -564,7 +585,7 @@ pub fn build(s: &Script) -> C08Case {
 pub fn run(ctx: &mut Ctx) {
     ctx.rule = "puppet sender vs real receiver, acknowledged mode, Tn = Ta = 2 s, limit 3. Exhaustive: files of 0..6 segments (last one full or short) x every subset of withheld items \
 (metadata + each segment) x 5 arrival orders (in order, EOF first, reversed, EOF in the middle, shuffled) x 4 NAK procedures (deferred/immediate x 0/300 ms) for segment size 16 (one request per NAK PDU, \
-lists split over several PDUs) ; sampled over segment sizes {16,24,32,64}, the large file-size flag (seg >= 32), CRC, a Prompt(NAK) before EOF and the puppet's answer to the first round \
+lists split over several PDUs) ; sampled over segment sizes {16,24,32,64}, the large file-size flag (seg >= 32), CRC, a Prompt(NAK) before EOF, a pause longer than the NAK timeout before one of the deliveries (data arriving after an unanswered NAK round expired) and the puppet's answer to the first round \
 (silent / everything / first half / everything + duplicate EOF). Non-trivial = at least one data segment or the metadata withheld; distinct by scenario."
         .into();
     ctx.assumptions = vec![
@@ -599,6 +620,7 @@ lists split over several PDUs) ; sampled over segment sizes {16,24,32,64}, the l
                         last_short: (withheld + order as u32) % 2 == 1,
                         seed: ctx.seed ^ ((nsegs as u64) << 32 | (withheld as u64) << 8 | order as u64),
                         crc: false,
+                        pause_before: None,
                     });
                 }
             }
@@ -628,6 +650,7 @@ lists split over several PDUs) ; sampled over segment sizes {16,24,32,64}, the l
             last_short: rng.chance(1, 2),
             seed: rng.next(),
             crc: rng.chance(1, 3),
+            pause_before: if rng.chance(1, 3) { Some(rng.below(nsegs as u64 + 2) as u32) } else { None },
         })
     });
     ctx.section.clear();
